@@ -584,6 +584,13 @@ func runC02(c *mc.Ctx) {
 						subs = append(subs, sc{nn, string(m)})
 					}
 				}
+				// ... and INSERTED at every position (a decoder that drops what it does not recognise still
+				// sees a valid checksum)
+				for pos := 0; pos <= len(b); pos++ {
+					for v := 0; v < 256; v++ {
+						subs = append(subs, sc{nn, b[:pos] + string([]byte{byte(v)}) + b[pos:]})
+					}
+				}
 			}
 		}
 		// ... and every non-ASCII rune whose case mapping is an ASCII character, at every position
